@@ -3,5 +3,5 @@ CONSTANTS
     Docs = {0, 1, 2}
     MaxLookups = 3
     Dev = {"StaleOneHit"}
-INVARIANTS CountRight IterRight NoCrash FirstRight
+INVARIANTS CountRight IterRight NoCrash FirstRight SharedStaysEmpty
 CHECK_DEADLOCK FALSE
